@@ -247,6 +247,14 @@ def input (r : SRx) : Item → SRx
 
 def run (r : SRx) (items : List Item) : SRx := items.foldl input r
 
+/-- The reader's session is closed locally, with no close request on the wire: the underlay the session
+    is attached to is torn down (`RunEventLoop` returns on a reset / read error / failed open of ANY
+    session's segment → `baseUnderlay.Close()` → `s.Close()` on every session — a GRACEFUL close) or the
+    session is removed. `Read` then drains the queue and reports a clean `io.EOF`. Outside the faults
+    C03 quantifies over (the TCP connection must die), modelled so that what the stream-transport
+    theorems assume — the connection survives — is explicit. -/
+def localClose (r : SRx) : SRx := { r with closed := true }
+
 inductive RdEv where
   | got (p : Bytes)
   | eof
